@@ -16,7 +16,7 @@ from . import common
 from .common import Corr, f2hex
 
 ID = "C08"
-LEAN_MODULES = ["TempestVerif.Props.C08"]
+LEAN_MODULES = ["TempestVerif.Props.C08", "TempestVerif.Props.C08Resume", "TempestVerif.Props.C08Post"]
 RULE = ("(i) save-load-roundtrip: real Samplers over {clustering, blobs, kernel tpcn/rwm, pool None/pool-like} x k in 0..4 "
         "iterations (`_initialize_fresh`, `sample()` x k, `save_state`, fresh sampler, `load_state`); the canonical dump "
         "(type, dtype, shape, bytes) of `_current`/`_history`/n_dim of the loaded sampler must equal the model's "
@@ -46,11 +46,30 @@ RULE = ("(i) save-load-roundtrip: real Samplers over {clustering, blobs, kernel 
         "(absent / loads as complete OLD / loads as complete NEW / broken) must lie in the crash-content set of the program extracted "
         "from save_state's source (`fs.smcrash`), the recorded trace must classify as temprename with the extracted shape, and "
         "the temporary file the code really opens must be the model's temporary name (final name + `.temp`). One campaign uses the final "
-        "name `x.temp`, which the pre-fix naming `with_suffix('.temp')` wrote in place (witness F27): judged like every other name.")
+        "name `x.temp`, which the pre-fix naming `with_suffix('.temp')` wrote in place (witness F27): judged like every other name. "
+        "(vii) worker-pool-kinds: integer > 1 / real multiprocess.Pool / pool-like, saved mid-run and through run(save_every). "
+        "(viii) core-metadata-roundtrip: the WHOLE checkpoint around the StateManager: top-level keys of the real file (in order) vs the "
+        "regenerated table; stored rng_state / random_state / n_total / logz_err vs the writer; after load_state into a fresh sampler "
+        "(constructed with ANOTHER random_state, global generator elsewhere): generator position, n_total, logz_err, t0, random_state and "
+        "the identity + fitted-flag of every component vs the model's loadCore on tagged values; the same with files lacking rng_state / "
+        "n_total / logz_err or holding rng_state=None (older checkpoints), and for `run(resume_state_path, n_total=nT)` t0 and n_total vs "
+        "prologueResume. Saving must not move the generator. Non-trivial = k >= 1 or a key dropped. "
+        "(ii) also checks, for every checkpoint of every run: the rng_state stored in the file is the writer's generator position at that "
+        "iteration boundary, and — where the cadence model (resume.comp: Model.Cadence with the run's real warm-up schedule) says the "
+        "clusterer events coincide — the run resumed with the same n_total is BIT-IDENTICAL to the uninterrupted run (C08_resume_continues_run); "
+        "runs with cluster_every in {2,3} on a bimodal target and with blobs returned but not declared (blobs_dtype=None) are generated. "
+        "(iv) also runs one campaign with a stale `<final>.temp` present and, after the crashes, a complete save over the leftover temp.")
 MODELLED = ["dill round trip: dec (enc d) = some d and dec of a strict prefix fails (trusted; exercised by (i) and (iv))",
             "process-crash granularity only: fsync durability / directory entries under power loss are not modelled",
-            "RNG state is not part of a checkpoint (the statement does not require it); n_total / logz_err / random_state metadata "
-            "and the pickled sampler object inside the checkpoint are exercised, not modelled",
+            "the generator position G, the component state C and the iteration oracle F of Model.Resume are abstract: H_det (one iteration is a "
+            "function of StateManager, generator position and component state: pure user functions, every draw through numpy's global "
+            "generator, pools return in input order) and H_comp (components carry no state that matters across a resume: true for "
+            "cluster_every = 1 / clustering off, C08_components_irrelevant; false in general, C08_components_matter_cluster_every_3) are "
+            "hypotheses of C08_resume_continues_run, checked by suite (ii) on the real code",
+            "the pickled sampler object `d['sampler']` and `d['random_state']` are written but never read on load (regenerated: "
+            "C08_gen_load_table); unpickling the stored sampler is exercised by suite (i) only",
+            "two processes saving the SAME final name concurrently share one temporary file and can mix payloads "
+            "(C08_concurrent_same_name_mixes): excluded by assumption; different names are safe (C08_concurrent_distinct_names_safe)",
             "arrays are opaque tagged values (aliasing of the loaded arrays is C17's subject)",
             "StateManager.save_state: temporary name = final name + `.temp` (as the sampler; /repo b1898a0), crash-safety proved for every "
             "final name from an arbitrary file system; the pre-fix naming `with_suffix('.temp')` is kept as `smSaveOld` (in-place write "
@@ -69,7 +88,7 @@ N_PART = 32
 
 def translators():
     from translate import g7_checkpoint, g5_tables
-    return [g7_checkpoint.generate(), g7_checkpoint.generate_sm(), g5_tables.generate()]
+    return [g7_checkpoint.generate(), g7_checkpoint.generate_sm(), g7_checkpoint.generate_core(), g5_tables.generate()]
 
 
 def _quiet():
@@ -125,18 +144,48 @@ def _mk_pool(kind):
     return ListPool()
 
 
-def mk_sampler(cfg, output_dir=None, label=None, like=None):
+def _bimodal(x):
+    a = -0.5 * float(np.sum((x - 2.5) ** 2)) / 0.09
+    b = -0.5 * float(np.sum((x + 2.5) ** 2)) / 0.09
+    return float(np.logaddexp(a, b))
+
+
+def mk_sampler(cfg, output_dir=None, label=None, like=None, random_state=None):
+    """cfg keys: clustering, blobs (False | True = declared with blobs_dtype | "und" = returned by the likelihood but NOT declared |
+    "obj" = undeclared string blobs, stored as object-dtype arrays),
+    kernel, pool (see _mk_pool); optional: ce (cluster_every), bimodal (two separated modes: stale and fresh clusterings differ)"""
     from tempest import Sampler
     if like is None:
-        if cfg["blobs"]:
+        if cfg["blobs"] == "obj":
+            like = lambda x: (-0.5 * float(np.sum(x ** 2)), "pos" if x[0] > 0 else "negative")  # noqa: E731
+        elif cfg.get("bimodal"):
+            if cfg["blobs"]:
+                like = lambda x: (_bimodal(x), float(x[0]) * 2.0 + 1.0)  # noqa: E731
+            else:
+                like = _bimodal
+        elif cfg["blobs"]:
             like = lambda x: (-0.5 * float(np.sum(x ** 2)), float(x[0]) * 2.0 + 1.0)  # noqa: E731
         else:
             like = lambda x: -0.5 * float(np.sum(x ** 2))  # noqa: E731
     kw = dict(n_particles=N_PART, clustering=cfg["clustering"], sample=cfg["kernel"],
-              blobs_dtype=("f8" if cfg["blobs"] else None), pool=_mk_pool(cfg["pool"]))
+              blobs_dtype=("f8" if cfg["blobs"] is True else None), pool=_mk_pool(cfg["pool"]))
+    if cfg.get("ce", 1) != 1:
+        kw["cluster_every"] = cfg["ce"]
+    if random_state is not None:
+        kw["random_state"] = random_state
     if output_dir is not None:
         kw.update(output_dir=output_dir, output_label=label)
     return Sampler(lambda u: 10.0 * u - 5.0, like, 2, **kw)
+
+
+# configurations beyond the 16 of CONFIGS: clusterer reused across iterations (cluster_every > 1) on a bimodal target, and blobs
+# that the likelihood returns without a declared blobs_dtype (have_blobs is then decided from the state: /repo 9130321)
+EXTRA_RUN_CONFIGS = [dict(clustering=True, blobs=False, kernel="tpcn", pool=False, ce=3, bimodal=True),
+                     dict(clustering=True, blobs=True, kernel="rwm", pool=False, ce=2, bimodal=True),
+                     dict(clustering=True, blobs="und", kernel="rwm", pool=False),
+                     dict(clustering=False, blobs="und", kernel="tpcn", pool=True, ce=3),
+                     dict(clustering=True, blobs=False, kernel="rwm", pool=True, ce=1, bimodal=True),
+                     dict(clustering=False, blobs="obj", kernel="rwm", pool=False)]
 
 
 # ----------------------------------------------------------------------------- canonical dumps and tags
@@ -145,6 +194,8 @@ def canon(v):
         return ("N",)
     if isinstance(v, (np.ndarray, np.generic)):
         a = np.asarray(v)
+        if a.dtype.hasobject:       # object arrays hold references: compare what they refer to, not the pointers
+            return ("a", type(v).__name__, a.dtype.str, list(a.shape), hashlib.sha1(repr(a.tolist()).encode()).hexdigest())
         return ("a", type(v).__name__, a.dtype.str, list(a.shape), hashlib.sha1(a.tobytes()).hexdigest())
     if isinstance(v, bool):
         return ("o", "bool", repr(v))
@@ -521,20 +572,38 @@ def _post(s, n_total):
     return float(beta), ess, (1.0 - beta < 1e-4) and ess >= n_total * (1 - 1e-12)
 
 
+def rng_tag(st=None):
+    """canonical tag of a position of numpy's global generator (`np.random.get_state()` tuple)"""
+    st = np.random.get_state() if st is None else st
+    if st is None:
+        return None
+    try:
+        return hashlib.sha1(repr((st[0], np.asarray(st[1]).tobytes(), int(st[2]), int(st[3]), float(st[4]))).encode()).hexdigest()[:16]
+    except Exception:  # noqa  (not a legacy MT19937 state tuple)
+        return "unrecognised:" + repr(st)[:40]
+
+
 @contextlib.contextmanager
-def snapshots(snaps):
+def snapshots(snaps, rngs=None):
+    """record `_current` right before every commit, and (rngs) the generator position right after it = the position at the
+    next iteration boundary, where a checkpoint is written (nothing draws between the commit and the save)"""
     from tempest.state_manager import StateManager
     orig = StateManager.commit_current_to_history
 
     def hooked(self, *a, **k):
         snaps.append({key: canon(v) for key, v in self._current.items()})
-        return orig(self, *a, **k)
+        r = orig(self, *a, **k)
+        if rngs is not None:
+            rngs.append(rng_tag())
+        return r
     with common.patched(StateManager, "commit_current_to_history", hooked):
         yield
 
 
-def run_case(cfg, k, k2, seed, n_total, which="all", n_total_resume=None):
-    """one writer run + resume of its checkpoints.  Returns a record of observations (no judgement)."""
+def run_case(cfg, k, k2, seed, n_total, which="all", n_total_resume=None, max_resumes=None, manual=True):
+    """one writer run; EVERY checkpoint is loaded into a fresh sampler, and resumed (all of them, or with `max_resumes` the first,
+    the last periodic, the final and a seed-determined choice of the others).  Returns a record of observations (no judgement)."""
+    import dill
     root = tempfile.mkdtemp(prefix="tv08_")
     out = os.path.join(root, "out")
     rec = dict(error=None, resumes=[])
@@ -543,8 +612,10 @@ def run_case(cfg, k, k2, seed, n_total, which="all", n_total_resume=None):
             warnings.simplefilter("ignore")
             np.random.seed(seed)
             s = mk_sampler(cfg, output_dir=out, label="ps")
+            wsnaps, wrngs = [], []
             try:
-                s.run(n_total=n_total, save_every=k, progress=False)
+                with snapshots(wsnaps, wrngs):
+                    s.run(n_total=n_total, save_every=k, progress=False)
             except Exception as e:  # noqa
                 # saving draws no random numbers, so the same seed without checkpoints follows the same trajectory:
                 # if that raises too, the failure is not about checkpoints (C18's subject)
@@ -558,30 +629,56 @@ def run_case(cfg, k, k2, seed, n_total, which="all", n_total_resume=None):
             n_iter = int(s.state.get_current("iter"))
             rec.update(n_iter=n_iter, files=_files(out, "ps"), pool_ok=(s._core.config.pool is not None) == bool(cfg["pool"]))
             full = dump_state(s.state)
+            rec["full"] = full
+            rec["warm"] = [1 if float(np.asarray(b)) == 0.0 else 0 for b in s.state._history["beta"]]
             rec["writer_post"] = _post(s, n_total)
+            rec["writer_rng_end"] = rng_tag()
             its, has_final, _ = rec["files"]
             cks = [(i, os.path.join(out, f"ps_{i}.state")) for i in its] + ([("final", os.path.join(out, "ps_final.state"))] if has_final else [])
             if which != "all":
                 cks = [ck for ck in cks if ck[0] in which]
+            resume_these = {ck[0] for ck in cks}
+            if max_resumes is not None and len(cks) > max_resumes:
+                import random
+                keep = [cks[0][0], cks[-1][0]] + ([cks[-2][0]] if len(cks) > 2 else [])
+                rest = [ck[0] for ck in cks if ck[0] not in keep]
+                random.Random(seed).shuffle(rest)
+                resume_these = set((keep + rest)[:max_resumes])
             for idx, path in cks:
                 r = dict(index=idx)
                 rec["resumes"].append(r)
+                i = n_iter if idx == "final" else idx
                 try:
+                    with open(path, "rb") as fh:
+                        dd = dill.load(fh)
+                    r["file_keys"] = list(dd.keys())
+                    r["file_rng_is_writers"] = 1 <= i <= len(wrngs) and rng_tag(dd.get("rng_state")) == wrngs[i - 1]
+                    r["file_n_total"] = dd.get("n_total")
+                    np.random.seed(seed ^ 0x5A5A5A)          # the resuming process has its generator somewhere else
                     s3 = mk_sampler(cfg)
                     s3.load_state(path)
                     d0 = dump_state(s3.state)
+                    r["rng_after_load_is_writers"] = 1 <= i <= len(wrngs) and rng_tag() == wrngs[i - 1]
                 except Exception as e:  # noqa
                     r["error"] = f"load_state({os.path.basename(path)}) raised {type(e).__name__}: {e}"
                     continue
                 r["loaded"] = d0
-                i = n_iter if idx == "final" else idx
                 # what the writer held when it wrote this checkpoint: the first i entries of its history
                 r["prefix_of_writer"] = all(d0["hist"].get(key) == full["hist"][key][:i] for key in full["hist"]) and \
                     d0["cur"].get("iter") == ("i", i)
+                if idx == "final":
+                    # written AFTER the evidence epilogue: the state run() returned with, logz included
+                    r["final_is_what_run_returned"] = _same_dump(d0, full)
+                    if not r["final_is_what_run_returned"]:
+                        r["writer_end"] = full
                 if i >= 1 and idx != "final":
                     r["current_is_last_batch"] = all(d0["cur"][key][2:] == full["hist"][key][i - 1][2:] for key in ("u", "x", "logl"))
+                if idx not in resume_these:
+                    r["loaded_only"] = True
+                    continue
                 label = f"rs{idx}"
                 snaps = []
+                np.random.seed((seed ^ 0x1234567) % 2 ** 31)
                 s2 = mk_sampler(cfg, output_dir=out, label=label)
                 try:
                     with snapshots(snaps):
@@ -589,22 +686,111 @@ def run_case(cfg, k, k2, seed, n_total, which="all", n_total_resume=None):
                 except Exception as e:  # noqa
                     r["error"] = f"run(resume_state_path={os.path.basename(path)}) raised {type(e).__name__}: {e}"
                     continue
-                r.update(final=dump_state(s2.state), snaps=snaps, files=_files(out, label), post=_post(s2, n_total_resume or n_total),
-                         t0_attr=int(s2._core.t0))
+                fin = dump_state(s2.state)
+                r.update(final=fin, snaps=snaps, files=_files(out, label), post=_post(s2, n_total_resume or n_total),
+                         t0_attr=int(s2._core.t0), n_total_attr=getattr(s2._core, "n_total", "absent"),
+                         betas=[float(np.asarray(b)) for b in s2.state._history["beta"]], blobs_expected=bool(cfg["blobs"]))
+                # continuation: the uninterrupted run's history as a prefix of (same n_total: equal to) the resumed run's
+                r["continues_writer"] = all(fin["hist"].get(key, [])[:n_iter] == full["hist"][key] for key in full["hist"]) and \
+                    (n_total_resume is not None or _same_dump(fin, full))
+                r["rng_end_is_writers"] = n_total_resume is not None or rng_tag() == rec["writer_rng_end"]
+            # the documented manual resume `load_state(path); run()` of one checkpoint that was also resumed through
+            # run(resume_state_path=path): same receiver construction, same generator position before -> must be the same run
+            done = [r for r in rec["resumes"] if "final" in r]
+            if manual and done:
+                rp = done[len(done) // 2]
+                idx = rp["index"]
+                path = os.path.join(out, f"ps_{idx}.state")
+                m = dict(index=idx, manual=True, loaded=rp["loaded"], prefix_of_writer=rp["prefix_of_writer"])
+                rec["manual"] = m
+                try:
+                    snaps = []
+                    np.random.seed((seed ^ 0x1234567) % 2 ** 31)
+                    s4 = mk_sampler(cfg, output_dir=out, label=f"mn{idx}")
+                    s4.load_state(path)
+                    with snapshots(snaps):
+                        s4.run(n_total=(n_total_resume or n_total), save_every=k2, progress=False)
+                    fin = dump_state(s4.state)
+                    m.update(final=fin, snaps=snaps, files=_files(out, f"mn{idx}"), post=_post(s4, n_total_resume or n_total),
+                             t0_attr=int(s4._core.t0), n_total_attr=getattr(s4._core, "n_total", "absent"),
+                             betas=[float(np.asarray(b)) for b in s4.state._history["beta"]], blobs_expected=bool(cfg["blobs"]),
+                             continues_writer=rp["continues_writer"], rng_end_is_writers=rp["rng_end_is_writers"],
+                             equals_path_resume=_same_dump(fin, rp["final"]) and _files(out, f"mn{idx}")[:2] == rp["files"][:2])
+                except Exception as e:  # noqa
+                    m["error"] = f"load_state({os.path.basename(path)}); run() raised {type(e).__name__}: {e}"
+            # a second run() on the writer itself (a finished run being extended with a larger n_total)
+            if manual is True:
+                sec = dict(before_files=_files(out, "ps"))
+                rec["second"] = sec
+                try:
+                    snaps2 = []
+                    with snapshots(snaps2):
+                        s.run(n_total=2 * n_total, save_every=k, progress=False)
+                    sec.update(final=dump_state(s.state), n_new=len(snaps2), files=_files(out, "ps"), post=_post(s, 2 * n_total),
+                               t0_attr=int(s._core.t0), n_total_attr=getattr(s._core, "n_total", "absent"),
+                               betas=[float(np.asarray(b)) for b in s.state._history["beta"]], blobs_expected=bool(cfg["blobs"]))
+                except Exception as e:  # noqa
+                    sec["error"] = f"second run(n_total={2 * n_total}) on the same sampler raised {type(e).__name__}: {e}"
         return rec
     finally:
         shutil.rmtree(root, ignore_errors=True)
 
 
-def judge_resume(r, n_total):
+def judge_second(rec, k, n_total):
+    """a finished run extended by a second run(n_total' = 2 n_total, save_every=k) on the same sampler -> message or None"""
+    sec = rec["second"]
+    if sec.get("error"):
+        return sec["error"]
+    full, fin, n0 = rec["full"], sec["final"], rec["n_iter"]
+    for key, l in full["hist"].items():
+        if fin["hist"].get(key, [])[:len(l)] != l:
+            return f"the second run() changed the committed history of {key!r}"
+    n_new = sec["n_new"]
+    if fin["hist"]["iter"][n0:] != [("i", n0 + j + 1) for j in range(n_new)] or fin["cur"]["iter"] != ("i", n0 + n_new):
+        return f"the second run() did not continue the iteration numbering from {n0}: {fin['hist']['iter'][n0:][:4]} (iter = {fin['cur']['iter']})"
+    calls = [v[1] for v in fin["hist"]["calls"]]
+    if any(b < a for a, b in zip(calls, calls[1:])):
+        return f"the second run() restarted the call counter: {calls}"
+    if any(b2 < b1 for b1, b2 in zip(sec["betas"], sec["betas"][1:])):
+        return f"the second run() restarted the temperature schedule: {sec['betas']}"
+    if any(len(v) != (n0 + n_new if (kk != "blobs" or sec["blobs_expected"]) else 0) for kk, v in fin["hist"].items()):
+        return f"history lists of unequal length after the second run: { {kk: len(v) for kk, v in fin['hist'].items()} }"
+    if sec["t0_attr"] != n0:
+        return f"the second run() took t0 = {sec['t0_attr']}, the sampler was at iteration {n0}"
+    if sec["n_total_attr"] != 2 * n_total:
+        return f"after the second run(n_total={2 * n_total}) n_total is {sec['n_total_attr']!r}"
+    if not sec["post"][2]:
+        return f"the second run(n_total={2 * n_total}) ended with beta={sec['post'][0]!r}, ESS={sec['post'][1]:.1f}"
+    want = sorted(set(sec["before_files"][0]) | set(expected_cadence(n0, k, n_new)))
+    if sec["files"][0] != want or not sec["files"][1] or sec["files"][2]:
+        return (f"checkpoints after the second run (t0={n0}, save_every={k}, {n_new} iterations): {sec['files'][0]} final={sec['files'][1]}; "
+                f"expected the first run's files plus the cadence from t0: {want} + final")
+    return None
+
+
+def components_irrelevant(cfg):
+    """where H_comp of C08_resume_continues_run holds by C08_components_irrelevant (independent of the Lean run)"""
+    return (not cfg["clustering"]) or cfg.get("ce", 1) == 1
+
+
+def judge_resume(r, n_total, expect_identical=False):
     """property-level oracle for one resumed checkpoint (independent of the Lean model) -> message or None"""
     if r.get("error"):
         return r["error"]
-    d0, fin = r["loaded"], r["final"]
     if not r["prefix_of_writer"]:
         return "the loaded checkpoint is not the state the writer held when it wrote it (history prefix / iter differ)"
     if r.get("current_is_last_batch") is False:
         return "the loaded current particles are not the last committed batch"
+    if r.get("final_is_what_run_returned") is False:
+        return ("the final checkpoint does not hold the state run() returned with (e.g. written before the evidence at beta = 1 was stored): "
+                + str(_first_diff(r["loaded"], r.get("writer_end", r["loaded"])) or "differs"))
+    if r.get("file_rng_is_writers") is False:
+        return "the rng_state stored in the checkpoint is not the writer's generator position at that iteration boundary"
+    if r.get("rng_after_load_is_writers") is False:
+        return "after load_state the global generator is not at the position stored when the checkpoint was written"
+    if r.get("loaded_only"):
+        return None
+    d0, fin = r["loaded"], r["final"]
     for key, l in d0["hist"].items():
         if fin["hist"].get(key, [])[:len(l)] != l:
             return f"resumed run changed the restored history prefix of {key!r}"
@@ -617,22 +803,45 @@ def judge_resume(r, n_total):
     calls = [v[1] for v in fin["hist"]["calls"]]
     if any(b < a for a, b in zip(calls, calls[1:])) or (n_new and calls[len(d0["hist"]["calls"])] < d0["cur"]["calls"][1]):
         return f"call counting does not continue: {calls}"
+    betas = r.get("betas", [])
+    if any(b2 < b1 for b1, b2 in zip(betas, betas[1:])) or any(not (0.0 <= b <= 1.0) for b in betas):
+        return f"the temperature schedule does not continue monotonically within [0,1] across the resume: {betas}"
+    n_hist = len(fin["hist"]["iter"])
+    if any(len(v) != (n_hist if (kk != "blobs" or r.get("blobs_expected")) else 0) for kk, v in fin["hist"].items()):
+        return f"history lists of unequal length after the resumed run: { {kk: len(v) for kk, v in fin['hist'].items()} }"
     if r["t0_attr"] != t0:
         return f"run_sampling took t0={r['t0_attr']}, restored iter={t0}"
+    if r.get("n_total_attr") != int(n_total):
+        return f"after run(resume_state_path, n_total={n_total}) the sampler's n_total is {r.get('n_total_attr')!r}"
     if not r["post"][2]:
         return f"resumed run ended with beta={r['post'][0]!r}, ESS={r['post'][1]:.1f} (n_total={n_total})"
+    if r.get("file_rng_is_writers") is False:
+        return "the rng_state stored in the checkpoint is not the writer's generator position at that iteration boundary"
+    if r.get("rng_after_load_is_writers") is False:
+        return "after load_state the global generator is not at the position stored when the checkpoint was written"
+    if r.get("manual") and r.get("equals_path_resume") is False:
+        return ("load_state(path); run() is not the run that run(resume_state_path=path) performs from the same generator position "
+                "(final state / checkpoint files differ)")
+    if expect_identical and not (r["continues_writer"] and r["rng_end_is_writers"]):
+        return ("the resumed run is not the continuation of the uninterrupted run (same seed, same n_total): histories / final state / "
+                "generator position differ although no component state is carried across iterations in this configuration")
     return None
 
 
 def suite_runs(tier, drv):
-    c = Corr("run-cadence-resume", "exact (file sets, canonical dumps, model runIters on tagged snapshots)")
+    c = Corr("run-cadence-resume", "exact (file sets, canonical dumps, generator positions, model runIters on tagged snapshots, "
+                                   "continuation vs the cadence model)")
     rng = common.rng_for("C08.runs")
-    n_runs = 12 if tier == "quick" else 48
+    n_runs = 9 if tier == "quick" else 36
     cfgs = list(CONFIGS)
     rng.shuffle(cfgs)
+    extra = list(EXTRA_RUN_CONFIGS)
+    rng.shuffle(extra)
+    plan = [cfgs[j % len(cfgs)] for j in range(n_runs)] + (extra[:3] if tier == "quick" else extra + extra)
+    gen = dict(t.split("=", 1) for t in drv.batch(["core.gen"])[0].split(" ") if "=" in t)
+    want_keys = ["_current", "_history", "n_dim"] + [k for k in gen.get("keys", "").split(",") if k]
     lines, checks = [], []
-    for j in range(n_runs):
-        cfg = cfgs[j % len(cfgs)]
+    for j, cfg in enumerate(plan):
         k = rng.choice([1, 2, 3]) if j else 2
         k2 = rng.choice([1, 2, 3])
         seed = rng.randrange(2 ** 31)
@@ -641,7 +850,8 @@ def suite_runs(tier, drv):
         n_total = 96 if j % 2 else 288
         n_total_resume = 2 * n_total if j % 3 == 0 else None
         key = dict(cfg=cfg, save_every=k, resume_save_every=k2, seed=seed, n_total=n_total, n_total_resume=n_total_resume)
-        rec = run_case(cfg, k, k2, seed, n_total, n_total_resume=n_total_resume)
+        rec = run_case(cfg, k, k2, seed, n_total, n_total_resume=n_total_resume, max_resumes=(3 if tier == "quick" else None),
+                       manual=(True if tier != "quick" or j % 2 == 0 else "no-second-run"))
         if rec.get("unrelated"):
             c.count("run_fails_also_without_checkpoints")
             continue
@@ -655,18 +865,33 @@ def suite_runs(tier, drv):
         c.case(dict(key, part="writer"), len(its) >= 1)
         c.count("writer_runs")
         c.count("periodic_checkpoints", len(its))
+        c.count(f"cluster_every={cfg.get('ce', 1)}")
+        c.count(f"blobs={cfg['blobs']}")
+        c.count(f"warmup_iterations={sum(rec['warm'])}")
         if not rec["writer_post"][2] or not rec["pool_ok"]:
             c.disagree(input=key, impl=f"writer ended with beta={rec['writer_post'][0]}, ESS={rec['writer_post'][1]}, pool kept={rec['pool_ok']}",
                        model="postconditions hold, pool still attached", kind="run", **key)
         for r in rec["resumes"]:
             rk = dict(key, checkpoint=r["index"])
             c.case(rk, True)
-            c.count("resumed_checkpoints")
+            c.count("loaded_checkpoints")
             msg = judge_resume(r, n_total_resume or n_total)
             if msg:
-                c.disagree(input=rk, impl=msg, model="restored prefix kept, numbering/calls continue, postconditions", kind="run", **key)
+                c.disagree(input=rk, impl=msg, model="restored prefix kept, numbering/calls/schedule continue, generator restored, postconditions",
+                           kind="run", **key)
                 continue
+            if r["file_keys"] != want_keys:
+                c.disagree(input=rk, impl=f"top-level keys of the checkpoint file {r['file_keys']}", model=f"regenerated table {want_keys}",
+                           kind="meta", **key)
+            if r.get("loaded_only"):
+                continue
+            c.count("resumed_checkpoints")
             d0, fin, snaps = r["loaded"], r["final"], r["snaps"]
+            # continuation vs the cadence model: resumed before schedule position i of the writer's real warm-up schedule
+            i_pos = rec["n_iter"] if r["index"] == "final" else r["index"]
+            lines.append(f"resume.comp ce={cfg.get('ce', 1)} clustering={1 if cfg['clustering'] else 0} iter0=0 "
+                         f"sched={','.join(str(b) for b in rec['warm']) or '-'} r={i_pos}")
+            checks.append(("continuation", rk, (r["continues_writer"], r["rng_end_is_writers"]), cfg))
             if d0["cur"]["calls"][0] != "i" or any(sn["calls"][0] != "i" or sn["iter"][0] != "i" for sn in snaps):
                 c.count("counter_not_a_python_int")     # outside the model's value language; judged by judge_resume only
                 continue
@@ -679,23 +904,65 @@ def suite_runs(tier, drv):
             st_args = tg.state_args(d0)
             its_s = []
             prev_calls = d0["cur"]["calls"][1]
+            step_ok = True
             for sn in snaps:
                 nc = sn["calls"][1] - prev_calls
                 prev_calls = sn["calls"][1]
                 vals = ",".join(f"{kk}:{tg.val(v)}" for kk, v in sorted(sn.items()) if kk not in ("iter", "calls"))
                 its_s.append(f"{nc};{vals}")
+                # hypothesis StepOK of C08_run_invariants, on the real run: the five non-counter default keys are set
+                step_ok = step_ok and all(sn[kk] != ("N",) for kk in ("beta", "logz", "steps", "acceptance", "efficiency"))
+            if not step_ok:
+                c.disagree(input=rk, impl="an iteration committed None under one of beta/logz/steps/acceptance/efficiency",
+                           model="StepOK (hypothesis of C08_run_invariants / C08_restore_identity)", kind="run", **key)
             lines.append(f"ckpt.run {st_args} iters={'|'.join(its_s) if its_s else '-'}")
             checks.append(("run", rk, tg, fin))
+        if "manual" in rec:
+            m = rec["manual"]
+            rk = dict(key, checkpoint=m["index"], path="load_state(); run()")
+            c.case(rk, True)
+            c.count("manual_resumes")
+            msg = judge_resume(m, n_total_resume or n_total)
+            if msg:
+                c.disagree(input=rk, impl=msg, model="load_state(); run() = run(resume_state_path) (C08_manual_resume_eq)", kind="run", **key)
+            else:
+                t0 = m["loaded"]["cur"]["iter"][1]
+                lines.append(f"ckpt.cadence t0={t0} k={k2} n={len(m['snaps'])}")
+                checks.append(("cadence", rk, dict(label=f"mn{m['index']}", t0=t0, k=k2, n=len(m["snaps"])), m["files"]))
+        if "second" in rec:
+            rk = dict(key, path="second run() on the writer")
+            c.case(rk, True)
+            c.count("second_runs")
+            msg = judge_second(rec, k, n_total)
+            if msg:
+                c.disagree(input=rk, impl=msg, model="a second run() continues (C08_second_run_continues)", kind="run", **key)
+            else:
+                c.count("second_run_iterations", rec["second"]["n_new"])
     for (kind, key, a, b), line, ans in zip(checks, lines, drv.batch(lines)):
+        hkey = {k: v for k, v in key.items() if k not in ("checkpoint", "path")}
         if kind == "cadence":
             its, has_final, other = b
             want = ans.split(" ")
             m_its = common.parse_list(want[0], int) if len(want) == 2 else None
             m_final = want[1] == "final=1" if len(want) == 2 else None
             if m_its != its or m_final != has_final or other:
-                c.disagree(input=dict(key, **a), impl=dict(periodic=its, final=has_final, other=other), model=ans, kind="run",
-                           **{k: v for k, v in key.items() if k != "checkpoint"})
+                c.disagree(input=dict(key, **a), impl=dict(periodic=its, final=has_final, other=other), model=ans, kind="run", **hkey)
             c.sample({"cadence": a, "files": its, "model": ans})
+        elif kind == "continuation":
+            same, rng_same = a
+            pred = ans.split(" ")[0]
+            if pred == "same" and components_irrelevant(b):
+                c.count("continuation_predicted_identical(H_comp by theorem)")
+            elif pred == "same":
+                c.count("continuation_predicted_identical(cadence model, cluster_every>1)")
+            elif pred == "differ":
+                c.count("continuation_may_differ(fresh Trainer refits off-cadence)")
+                c.count("  ...and the runs did differ" if not same else "  ...but the runs coincided")
+            if pred not in ("same", "differ") or (components_irrelevant(b) and pred != "same"):
+                c.disagree(input=key, impl=f"model answered {ans!r}", model="same (C08_components_irrelevant)", kind="run", **hkey)
+            elif pred == "same" and not (same and rng_same):
+                c.disagree(input=key, impl="the resumed run is NOT the continuation of the uninterrupted run (history / final state / generator differ)",
+                           model="identical (C08_resume_continues_run; clusterer events coincide in Model.Cadence)", kind="run", **hkey)
         else:
             tg, fin = a, b
             m = parse_state(ans) if ans.startswith("cur=") else None
@@ -703,7 +970,7 @@ def suite_runs(tier, drv):
             ok = m is not None and m[1] == fh and all(m[0].get(kk) == v for kk, v in fc.items() if kk != "logz") and m[2] == fin["ndim"]
             if not ok:
                 c.disagree(input=key, impl=dict(iter=fc.get("iter"), calls=fc.get("calls"), hist_len={kk: len(v) for kk, v in fh.items()}),
-                           model=ans[:300], kind="run", **{k: v for k, v in key.items() if k != "checkpoint"})
+                           model=ans[:300], kind="run", **hkey)
     return c
 
 
@@ -919,14 +1186,18 @@ def classify_outcome(cfg, final, old_bytes, old_dump, new_dump, loader=None):
     return "broken", f"{len(data)} bytes under the final name load, but as neither the old nor the new state ({_first_diff(d, new_dump)})"
 
 
-def crash_campaign(cfg, seed, with_old, tier, rng, eager_modes=(True,), max_points=None):
-    """returns (proto, sizes, results[(point, eager, exit code, outcome, detail)])"""
+STALE = b"stale temporary file of an earlier, interrupted save"
+
+
+def crash_campaign(cfg, seed, with_old, tier, rng, eager_modes=(True,), max_points=None, stale_tmp=False, resave=False, name="a.state"):
+    """returns (proto, sizes, results[(point, eager, exit code, outcome, detail)]) — and with resave=True a 4th element: what a
+    COMPLETE save finds and leaves after a crash in the middle of the pickle left a partial temporary file behind"""
     root = tempfile.mkdtemp(prefix="tv08_")
     try:
         with _quiet(), warnings.catch_warnings():
             warnings.simplefilter("ignore")
             s = _prepared(cfg, 2, seed, root)
-            final = os.path.join(root, "a.state")
+            final = os.path.join(root, name)
             old_bytes = old_dump = None
             if with_old:
                 s.save_state(final)
@@ -939,25 +1210,42 @@ def crash_campaign(cfg, seed, with_old, tier, rng, eager_modes=(True,), max_poin
             os.mkdir(ref)
             ctl = Ctl(ref)
             with fs_layer(ctl):
-                s.save_state(os.path.join(ref, "a.state"))
-            ops = abstract_trace(ctl.log, os.path.join(ref, "a.state"))
+                s.save_state(os.path.join(ref, name))
+            ops = abstract_trace(ctl.log, os.path.join(ref, name))
             sizes = [e[2] for e in ctl.log if e[0] == "write"]
+            opened = next((e[1] for e in ctl.log if e[0] == "open"), None)
+            tmp = os.path.join(root, os.path.basename(opened)) if opened else final + ".temp"
             shutil.rmtree(ref)
         pts = crash_points(sizes, tier, rng)
         if max_points:
             pts = pts[:len(OP_POINTS)] + rng.sample(pts[len(OP_POINTS):], min(max_points, len(pts) - len(OP_POINTS)))
+
+        def reset():
+            _clear_dir(root)
+            if stale_tmp and tmp != final:
+                with open(tmp, "wb") as fh:
+                    fh.write(STALE)
+            if with_old:
+                with open(final, "wb") as fh:
+                    fh.write(old_bytes)
         results = []
         for eager in eager_modes:
             for pt in pts:
-                # reset the directory to the initial situation
-                _clear_dir(root)
-                if with_old:
-                    with open(final, "wb") as fh:
-                        fh.write(old_bytes)
+                reset()
                 code = crash_one(s, final, pt, eager)
                 outcome, detail = classify_outcome(cfg, final, old_bytes, old_dump, new_dump)
                 results.append((pt, eager, code, outcome, detail))
-        return ops, sizes, results
+        if not resave:
+            return ops, sizes, results
+        reset()
+        code = crash_one(s, final, ("byte", sum(sizes) // 2), True)
+        left = sorted(os.listdir(root))
+        with _quiet(), warnings.catch_warnings():
+            warnings.simplefilter("ignore")
+            s.save_state(final)
+        outcome, detail = classify_outcome(cfg, final, old_bytes, old_dump, new_dump)
+        return ops, sizes, results, dict(crash_exit=code, left_by_crash=left, outcome=outcome, detail=detail, after=sorted(os.listdir(root)),
+                                         tmp=os.path.basename(tmp), name=name)
     finally:
         shutil.rmtree(root, ignore_errors=True)
 
@@ -965,14 +1253,16 @@ def crash_campaign(cfg, seed, with_old, tier, rng, eager_modes=(True,), max_poin
 def suite_crash(tier, drv):
     c = Corr("crash-injection", "exact (content under the final name after a process crash vs the model's crash-content set)")
     rng = common.rng_for("C08.crash")
-    plan = [(CONFIGS[0], True), (CONFIGS[0], False), (CONFIGS[7], True), (CONFIGS[13], False)] if tier == "quick" else \
-        [(cfg, old) for cfg in CONFIGS[::3] for old in (True, False)]
-    for cfg, with_old in plan:
+    # (configuration, old checkpoint present, stale `<final>.temp` present)
+    plan = [(CONFIGS[0], True, False), (CONFIGS[0], False, False), (CONFIGS[7], True, True), (CONFIGS[13], False, True)] if tier == "quick" else \
+        [(cfg, old, (i + j) % 2 == 1) for i, cfg in enumerate(CONFIGS[::3]) for j, old in enumerate((True, False))]
+    for n_c, (cfg, with_old, stale) in enumerate(plan):
         seed = rng.randrange(2 ** 31)
-        key = dict(cfg=cfg, seed=seed, old_checkpoint=with_old)
+        key = dict(cfg=cfg, seed=seed, old_checkpoint=with_old, stale_tmp=stale)
         try:
-            ops, sizes, results = crash_campaign(cfg, seed, with_old, tier, rng, eager_modes=(True, False) if (tier != "quick" or with_old) else (True,),
-                                                 max_points=None)
+            ops, sizes, results, rs = crash_campaign(cfg, seed, with_old, tier, rng,
+                                                     eager_modes=(True, False) if (tier != "quick" or (with_old and not stale)) else (True,),
+                                                     max_points=None, stale_tmp=stale, resave=True)
         except Exception as e:  # noqa  (a save that raises outright is a disagreement, not an infrastructure problem)
             c.case(key, True)
             c.disagree(input=key, impl=f"save_state raised {type(e).__name__}: {e}", model="save succeeds in every configuration", kind="roundtrip",
@@ -980,18 +1270,24 @@ def suite_crash(tier, drv):
             continue
         ans = drv.batch(["fs.classify ops=" + ";".join(ops) + " final=final"])[0]
         proto = ans if ans in ("direct", "temprename") else None
+        after = None
         if proto is None:
             # the model does not recognise the protocol: nothing is predicted; the protocol suite reports it, and every
             # observed outcome must still be a complete file
             allowed = {"old" if with_old else "absent", "new"}
             model_set = "unclassified protocol"
         else:
-            m = drv.batch([f"fs.crash proto={proto} old={'1,1,1' if with_old else 'none'} payload=2,2,2,2"])[0]
-            model_set = m
+            # the sampler's program from ANY file system: old checkpoint or none, stale temporary file or none
+            m = drv.batch([f"fs.crash proto={proto} old={'1,1,1' if with_old else 'none'} payload=2,2,2,2",
+                           f"fs.samplercrash old={'1,1,1' if with_old else 'none'} tmpold={'9,9' if stale else 'none'} payload=2,2,2,2"])
+            model_set = m[0]
+            if proto == "temprename":
+                model_set, after = m[1].split(" after=")
             allowed = set()
-            for item in m.split("|"):
+            for item in model_set.split("|"):
                 allowed.add({"absent": "absent", "1,1,1": "old", "2,2,2,2": "new"}.get(item, "broken"))
         c.count(f"protocol={proto}")
+        c.count(f"stale_temp={'yes' if stale else 'no'}")
         for pt, eager, code, outcome, detail in results:
             ck = dict(key, crash_point=list(pt), eager_flush=eager)
             c.case(ck, pt[0] == "byte" or pt[1] in ("rename", "done", "close"))
@@ -1005,8 +1301,15 @@ def suite_crash(tier, drv):
                 bad = True
             if bad:
                 c.disagree(input=ck, impl=f"{outcome}: {detail}", model=f"crash contents {model_set}", kind="crash", **key, point=list(pt), eager=eager)
+        # a complete save after a crash that left a partial temporary file: C08_crash_then_resave / C08_sampler_save_completes
+        ck = dict(key, crash_point=["byte", sum(sizes) // 2], then="complete save")
+        c.case(ck, True)
+        c.count("resave_after_crash: leftover temp present" if rs["tmp"] in rs["left_by_crash"] else "resave_after_crash: no leftover temp")
+        if rs["crash_exit"] != 9 or rs["outcome"] != "new" or rs["after"] != ["a.state"] or (after is not None and after != "2,2,2,2/absent"):
+            c.disagree(input=ck, impl=f"after the crash: {rs['left_by_crash']}; after the complete save: {rs['outcome']} ({rs['detail']}), directory {rs['after']}",
+                       model=f"final = new payload, temporary file gone (model: after={after})", kind="resave", **key)
         c.sample({"config": key, "write_sizes": sizes, "model_crash_contents": model_set,
-                  "observed": sorted({o for _, _, _, o, _ in results})})
+                  "observed": sorted({o for _, _, _, o, _ in results}), "resave": rs})
     return c
 
 
@@ -1368,10 +1671,229 @@ def suite_pool_kinds(tier, drv):
     return c
 
 
+# ----------------------------------------------------------------------------- (viii) the whole checkpoint around the StateManager
+META_VARIANTS = ["plain", "attrs", "attrs", "drop:rng_state", "drop:n_total,logz_err", "drop:rng_state,n_total,logz_err,sampler,random_state",
+                 "rng_none", "resume", "manual", "manual"]
+
+
+def _attr_val(v):
+    if isinstance(v, str) and v == "absent":
+        return "absent"
+    if v is None:
+        return "N"
+    if isinstance(v, bool):
+        return "other:" + repr(v)
+    if isinstance(v, int):
+        return f"i{v}"
+    return "other:" + repr(v)[:30]
+
+
+def _components(core):
+    """identity of every object the loaded sampler must keep + the only cross-iteration component state"""
+    tr = core.trainer
+    cl = getattr(tr, "clusterer", None)
+    return dict(ids=(id(core.config), id(core.reweighter), id(tr), id(core.resampler), id(core.mutator), id(cl), id(core.state)),
+                trainer_fitted_flag=bool(getattr(tr, "_clusterer_fitted", False)),
+                clusterer_fitted=bool(cl is not None and getattr(cl, "_gmm_ready", False)),
+                random_state=core.config.random_state, t0=int(core.t0))
+
+
+def meta_case(cfg, k, seed, variant):
+    """observations around one save_state / load_state (no judgement)"""
+    import dill
+    root = tempfile.mkdtemp(prefix="tv08_")
+    rec = dict(error=None)
+    try:
+        with _quiet(), warnings.catch_warnings():
+            warnings.simplefilter("ignore")
+            s = _prepared(cfg, k, seed, root)
+            if variant in ("attrs", "resume", "manual") or variant.startswith("drop:n_total"):
+                s._core.n_total = 64 + k           # what run_sampling assigns
+                s._core.logz_err = None
+            w = dict(n_total=getattr(s._core, "n_total", "absent"), logz_err=getattr(s._core, "logz_err", "absent"),
+                     random_state=s._core.config.random_state, rng=rng_tag(), comp=_components(s._core))
+            path = os.path.join(root, "a.state")
+            s.save_state(path)
+            rec["rng_unmoved_by_save"] = rng_tag() == w["rng"]
+            rec["attrs_unchanged_by_save"] = (getattr(s._core, "n_total", "absent"), getattr(s._core, "logz_err", "absent")) == (w["n_total"], w["logz_err"])
+            rec["saved"] = dump_state(s.state)
+            with open(path, "rb") as fh:
+                d = dill.load(fh)
+            rec["file"] = dict(keys=list(d.keys()), rng=rng_tag(d.get("rng_state")), random_state=d.get("random_state", "absent"),
+                               n_total=d.get("n_total", "absent"), logz_err=d.get("logz_err", "absent"),
+                               sampler_is_bytes=isinstance(d.get("sampler"), (bytes, bytearray)))
+            try:
+                inner = dill.loads(d["sampler"])
+                rec["pickled_trainer_flag"] = bool(inner.trainer._clusterer_fitted)
+            except Exception as e:  # noqa
+                rec["pickled_trainer_flag"] = f"{type(e).__name__}"
+            drop = variant[5:].split(",") if variant.startswith("drop:") else []
+            if drop or variant == "rng_none":
+                for kk in drop:
+                    d.pop(kk, None)
+                if variant == "rng_none":
+                    d["rng_state"] = None
+                with open(path, "wb") as fh:
+                    dill.dump(d, fh)
+            rec["drop"] = drop
+            # the receiving sampler: another random_state, generator somewhere else, (for `drop`) attributes of its own
+            np.random.seed((seed + 17) % 2 ** 31)
+            s2 = mk_sampler(cfg, random_state=12345, output_dir=os.path.join(root, "o2"), label="r")
+            if drop:
+                s2._core.n_total = 7
+            f = dict(n_total=getattr(s2._core, "n_total", "absent"), logz_err=getattr(s2._core, "logz_err", "absent"), rng=rng_tag(),
+                     comp=_components(s2._core))
+            if variant == "resume":
+                nT = 200 + k
+                s2._core._not_termination = lambda: False         # prologue + epilogue only: no iteration
+                s2.run(n_total=nT, resume_state_path=path, progress=False)
+                rec["nT"] = nT
+            elif variant == "manual":
+                # the documented manual resume: load_state(path); run()   (the receiver HAS a random_state: it must not reseed
+                # when committed history was loaded; with an empty history (k = 0) this is a fresh start and it must)
+                nT = 300 + k
+                s2.load_state(path)
+                s2._core._not_termination = lambda: False
+                s2.run(n_total=nT, progress=False)
+                rec["nT"] = nT
+                st = np.random.get_state()
+                np.random.seed(12345)
+                rec["seeded_rng"] = rng_tag()
+                np.random.set_state(st)
+            else:
+                s2.load_state(path)
+            rec["loaded"] = dump_state(s2.state)
+            rec["after"] = dict(n_total=getattr(s2._core, "n_total", "absent"), logz_err=getattr(s2._core, "logz_err", "absent"), rng=rng_tag(),
+                                comp=_components(s2._core))
+            rec["writer"], rec["fresh"] = w, f
+        return rec
+    except Exception as e:  # noqa
+        rec["error"] = f"{type(e).__name__}: {e}"
+        return rec
+    finally:
+        shutil.rmtree(root, ignore_errors=True)
+
+
+def judge_meta(rec, k, variant):
+    """property-level oracle (independent of the Lean model) -> message or None"""
+    if rec["error"]:
+        return f"save_state / load_state raised {rec['error']}"
+    w, f, a, fl = rec["writer"], rec["fresh"], rec["after"], rec["file"]
+    if not rec["rng_unmoved_by_save"]:
+        return "save_state moved the global random generator (the run after a checkpoint differs from the run without)"
+    if not rec["attrs_unchanged_by_save"]:
+        return "save_state changed n_total / logz_err of the sampler it saved"
+    if fl["rng"] != w["rng"]:
+        return "the rng_state stored in the checkpoint is not the generator position at the time of the save"
+    want_rng = f["rng"] if ("rng_state" in rec["drop"] or variant == "rng_none") else w["rng"]
+    if variant == "manual" and k == 0:
+        want_rng = rec["seeded_rng"]      # empty history: run() is a fresh start of a sampler with random_state=12345
+    if variant == "manual" and k >= 1:
+        sv, ld = rec["saved"]["cur"], rec["loaded"]["cur"]
+        if any(sv[kk] != ld[kk] for kk in ("iter", "calls", "beta")):
+            return (f"load_state(); run() reset the counters of the loaded state: iter {sv['iter']} -> {ld['iter']}, calls {sv['calls']} -> "
+                    f"{ld['calls']}, beta {sv['beta']} -> {ld['beta']}")
+    if a["rng"] != want_rng:
+        if variant == "manual":
+            return ("load_state(); run() moved the global generator away from the position stored in the checkpoint (reseeded from "
+                    "random_state?): the resumed iterations replay draws" if k >= 1 else
+                    "run() of a seeded sampler without committed history did not start from seed(random_state)")
+        return ("after load_state the global generator is neither where the checkpoint says nor (file without rng_state) where it was"
+                if want_rng == f["rng"] else
+                "after load_state the global generator is not at the position stored in the checkpoint (a resumed run would not continue the stream)")
+    if a["comp"]["ids"] != f["comp"]["ids"] or a["comp"]["random_state"] != f["comp"]["random_state"]:
+        return "load_state replaced a component / the configuration of the receiving sampler"
+    if variant not in ("resume", "manual") and k >= 1 and not _same_dump(rec["saved"], rec["loaded"]):
+        return f"after {k} iterations: loaded into a fresh sampler != saved: {_first_diff(rec['saved'], rec['loaded'])}"
+    if variant in ("resume", "manual"):
+        how = "run(resume_state_path" if variant == "resume" else "load_state(); run("
+        if a["n_total"] != rec["nT"]:
+            return f"{how}, n_total={rec['nT']}) left n_total = {a['n_total']!r}"
+        it = rec["saved"]["cur"]["iter"]
+        if a["comp"]["t0"] != (it[1] if it[0] == "i" else 0):
+            return f"{how}) took t0 = {a['comp']['t0']}, the checkpoint's iter is {it}"
+    return None
+
+
+def suite_core_meta(tier, drv):
+    c = Corr("core-metadata-roundtrip", "exact (top-level keys, generator positions, attributes, component identities; model loadCore / "
+                                        "prologueResume on tagged values)")
+    rng = common.rng_for("C08.meta")
+    gen = dict(t.split("=", 1) for t in drv.batch(["core.gen"])[0].split(" ") if "=" in t)
+    want_keys = ["_current", "_history", "n_dim"] + [k for k in gen.get("keys", "").split(",") if k]
+    c.sample({"generated": {k: gen.get(k) for k in ("keys", "load", "attrs", "loadrnd", "epilogue")}})
+    cfgs = CONFIGS[::2] + EXTRA_RUN_CONFIGS[:3]
+    if tier != "quick":
+        cfgs = CONFIGS + EXTRA_RUN_CONFIGS
+    lines, recs = [], []
+    for cfg in cfgs:
+        for variant in (META_VARIANTS if tier != "quick" else rng.sample(META_VARIANTS, 5)):
+            k = rng.choice([0, 1, 2, 4]) if variant != "resume" else rng.choice([1, 2, 4])
+            if variant == "manual" and cfg["pool"] == "never":
+                k = max(k, 1)
+            seed = rng.randrange(2 ** 31)
+            key = dict(cfg=cfg, k=k, seed=seed, variant=variant)
+            rec = meta_case(cfg, k, seed, variant)
+            c.case(key, k >= 1 or variant != "plain")
+            c.count(f"variant={variant}")
+            c.count(f"k={k}")
+            msg = judge_meta(rec, k, variant)
+            if msg:
+                c.disagree(input=key, impl=msg, model="generator / attributes restored as loadCore says; components, config, t0 of the receiver kept",
+                           kind="meta", **key)
+                continue
+            if rec["file"]["keys"] != want_keys or not rec["file"]["sampler_is_bytes"]:
+                c.disagree(input=key, impl=f"top-level keys of the file {rec['file']['keys']} (sampler is bytes: {rec['file']['sampler_is_bytes']})",
+                           model=f"regenerated table {want_keys}", kind="meta", **key)
+            if rec["file"]["random_state"] != rec["writer"]["random_state"] or _attr_val(rec["file"]["n_total"]) != _attr_val(
+                    None if rec["writer"]["n_total"] == "absent" else rec["writer"]["n_total"]):
+                c.disagree(input=key, impl=f"file holds random_state={rec['file']['random_state']!r} n_total={rec['file']['n_total']!r}",
+                           model=f"writer's random_state / getattr(n_total, None) = {rec['writer']['random_state']!r} / {rec['writer']['n_total']!r}",
+                           kind="meta", **key)
+            if rec["pickled_trainer_flag"] is True and rec["after"]["comp"]["trainer_fitted_flag"] is False:
+                c.count("writer's fitted-trainer flag is in the file but NOT restored (components are the receiver's)")
+            tg = Tagger()
+            rt = {rec["writer"]["rng"]: 1, rec["fresh"]["rng"]: 2}
+            if "seeded_rng" in rec:
+                rt.setdefault(rec["seeded_rng"], 1000000 + 12345)
+            line = (f"core.roundtrip {tg.state_args(rec['saved'])} ntotal={_attr_val(rec['writer']['n_total'])} "
+                    f"logzerr={_attr_val(rec['writer']['logz_err'])} rng=1 fndim=2 frng=2 fntotal={_attr_val(rec['fresh']['n_total'])} "
+                    f"flogzerr={_attr_val(rec['fresh']['logz_err'])}")
+            if rec["drop"]:
+                line += " drop=" + ",".join(rec["drop"])
+            if variant == "rng_none":
+                line += " rngnone=1"
+            if variant == "resume":
+                line += f" nT={rec['nT']}"
+            if variant == "manual":
+                line += f" nT={rec['nT']} manual=1 frs=12345"
+            lines.append(line)
+            recs.append((key, rec, tg, rt))
+    for (key, rec, tg, rt), line, ans in zip(recs, lines, drv.batch(lines)):
+        toks = dict(t.split("=", 1) for t in ans.split(" ") if "=" in t)
+        a = rec["after"]
+        real = dict(ntotal=_attr_val(a["n_total"]), logzerr=_attr_val(a["logz_err"]), rng=str(rt.get(a["rng"], 0)),
+                    comp="fresh" if (a["comp"]["ids"] == rec["fresh"]["comp"]["ids"] and not a["comp"]["trainer_fitted_flag"]
+                                     and not a["comp"]["clusterer_fitted"]) else "changed", t0=str(a["comp"]["t0"]))
+        m = parse_state(" ".join(t for t in ans.split(" ") if t.split("=")[0] in ("cur", "hist", "ndim"))) if ans.startswith("cur=") else None
+        lc, lh = tg.cur(rec["loaded"]["cur"]), tg.hist(rec["loaded"]["hist"])
+        if key["variant"] in ("resume", "manual") and m is not None:
+            m[0].pop("logz", None)          # the epilogue of run() rewrites logz (C12's clause), everything else is the loaded state
+            lc.pop("logz", None)
+        bad = [kk for kk in real if toks.get(kk) != real[kk]]
+        if m is None or bad or m[0] != lc or m[1] != lh or m[2] != rec["loaded"]["ndim"]:
+            c.disagree(input=key, impl=dict(real, state_equal=(m is not None and m[0] == lc and m[1] == lh)), model=ans[-160:], kind="meta", **key)
+        c.sample({"case": key, "model": ans[-120:]})
+    if gen.get("loadrnd") != "np.random.set_state" or gen.get("loadreads") != "logz_err,n_total,rng_state":
+        c.disagree(input="Gen.Checkpoint (load_sampler_state)", impl=f"loadrnd={gen.get('loadrnd')} loadreads={gen.get('loadreads')}",
+                   model="np.random.set_state only; reads logz_err,n_total,rng_state", kind="meta")
+    return c
+
+
 def correspond(tier):
     drv = common.Driver()
     out = []
-    for f in (suite_roundtrip, suite_runs, suite_protocol, suite_crash, suite_sm_roundtrip, suite_sm_crash, suite_pool_kinds):
+    for f in (suite_roundtrip, suite_runs, suite_protocol, suite_crash, suite_sm_roundtrip, suite_sm_crash, suite_pool_kinds, suite_core_meta):
         try:
             out.append(f(tier, drv))
         except common.LeanError:
@@ -1418,7 +1940,7 @@ def oracle_run(cfg, k, k2, seed, n_total, which="all", n_total_resume=None):
     if not rec["pool_ok"]:
         return "pool lost during a run with save_every"
     for r in rec["resumes"]:
-        msg = judge_resume(r, n_total_resume or n_total)
+        msg = judge_resume(r, n_total_resume or n_total, expect_identical=components_irrelevant(cfg))
         if msg:
             return f"checkpoint {r['index']}: {msg}"
         t0 = r["loaded"]["cur"]["iter"][1]
@@ -1427,11 +1949,39 @@ def oracle_run(cfg, k, k2, seed, n_total, which="all", n_total_resume=None):
         if r["files"][0] != want or not r["files"][1] or r["files"][2]:
             return (f"resume from checkpoint {r['index']} (t0={t0}, save_every={k2}, {n_new} iterations) wrote {r['files'][0]} "
                     f"final={r['files'][1]}; the cadence is {want} + final")
+    if "manual" in rec:
+        m = rec["manual"]
+        msg = judge_resume(m, n_total_resume or n_total, expect_identical=components_irrelevant(cfg))
+        if msg:
+            return f"manual resume of checkpoint {m['index']} (load_state(); run()): {msg}"
+        t0 = m["loaded"]["cur"]["iter"][1]
+        want = expected_cadence(t0, k2, len(m["snaps"]))
+        if m["files"][0] != want or not m["files"][1] or m["files"][2]:
+            return (f"load_state(checkpoint {m['index']}); run(save_every={k2}) (t0={t0}, {len(m['snaps'])} iterations) wrote {m['files'][0]} "
+                    f"final={m['files'][1]}; the cadence relative to t0 is {want} + final")
+    if "second" in rec:
+        msg = judge_second(rec, k, n_total)
+        if msg:
+            return msg
     return None
 
 
-def oracle_crash(cfg, seed, with_old, tier, rng, eager_modes=(True, False), max_points=None):
-    ops, sizes, results = crash_campaign(cfg, seed, with_old, tier, rng, eager_modes, max_points)
+def oracle_meta(cfg, k, seed, variant):
+    return judge_meta(meta_case(cfg, k, seed, variant), k, variant)
+
+
+def oracle_resave(cfg, seed, with_old, stale):
+    """crash in the middle of the pickle (partial temporary file left), then a complete save of the same name"""
+    import random
+    ops, sizes, results, rs = crash_campaign(cfg, seed, with_old, "quick", random.Random(seed), (True,), max_points=1, stale_tmp=stale, resave=True)
+    if rs["crash_exit"] == 9 and rs["outcome"] == "new" and rs["after"] == ["a.state"]:
+        return None
+    return (f"save_state killed at byte {sum(sizes) // 2} of {sum(sizes)} left {rs['left_by_crash']}; the next complete save_state of the same name: "
+            f"{rs['outcome']} ({rs['detail']}), directory afterwards {rs['after']}")
+
+
+def oracle_crash(cfg, seed, with_old, tier, rng, eager_modes=(True, False), max_points=None, stale_tmp=False, name="a.state"):
+    ops, sizes, results = crash_campaign(cfg, seed, with_old, tier, rng, eager_modes, max_points, stale_tmp=stale_tmp, name=name)
     for pt, eager, code, outcome, detail in results:
         if code == 3:
             return dict(what="save_state raised in the child before reaching the crash point", point=list(pt), eager=eager)
@@ -1441,9 +1991,9 @@ def oracle_crash(cfg, seed, with_old, tier, rng, eager_modes=(True, False), max_
         if not ok:
             where = f"byte offset {pt[1]} of {sum(sizes)} (writes of sizes {sizes[:6]}{'…' if len(sizes) > 6 else ''})" if pt[0] == "byte" \
                 else f"the instant before `{pt[1]}`" if pt[1] != "done" else "the instant after the rename"
-            return dict(what=f"process killed at {where} during save_state ({'with' if with_old else 'without'} an existing complete "
-                             f"checkpoint): {outcome}: {detail or 'unexpected content'}",
-                        point=list(pt), eager=eager, ops=";".join(ops)[:200])
+            return dict(what=f"process killed at {where} during save_state({name!r}) ({'with' if with_old else 'without'} an existing complete "
+                             f"checkpoint{', stale <final>.temp present' if stale_tmp else ''}): {outcome}: {detail or 'unexpected content'}",
+                        point=list(pt), eager=eager, stale_tmp=stale_tmp, name=name, ops=";".join(ops)[:200])
     return None
 
 
@@ -1468,8 +2018,13 @@ def search(tier, hints):
                     cfg=h["cfg"], save_every=h["save_every"], resume_save_every=h["resume_save_every"], seed=h["seed"], n_total=h["n_total"],
                     n_total_resume=h.get("n_total_resume"))
             elif h.get("kind") == "crash" and "point" in h:
-                r = oracle_crash_point(h["cfg"], h["seed"], h["old_checkpoint"], tuple(h["point"]), h["eager"])
+                r = oracle_crash_point(h["cfg"], h["seed"], h["old_checkpoint"], tuple(h["point"]), h["eager"], h.get("stale_tmp", False))
                 add("crash", r, cfg=h["cfg"], seed=h["seed"], old_checkpoint=h["old_checkpoint"])
+            elif h.get("kind") == "meta" and "variant" in h:
+                add("meta", oracle_meta(h["cfg"], h["k"], h["seed"], h["variant"]), cfg=h["cfg"], k=h["k"], seed=h["seed"], variant=h["variant"])
+            elif h.get("kind") == "resave" and "old_checkpoint" in h:
+                add("resave", oracle_resave(h["cfg"], h["seed"], h["old_checkpoint"], h.get("stale_tmp", False)), cfg=h["cfg"], seed=h["seed"],
+                    old_checkpoint=h["old_checkpoint"], stale_tmp=h.get("stale_tmp", False))
             elif h.get("kind") == "sm-roundtrip" and "name" in h:
                 add("sm-roundtrip", oracle_sm_roundtrip(h["cfg"], h["k"], h["seed"], h["name"], h.get("rng_seed", 0)),
                     cfg=h["cfg"], k=h["k"], seed=h["seed"], name=h["name"], rng_seed=h.get("rng_seed", 0))
@@ -1483,6 +2038,7 @@ def search(tier, hints):
             return found
     # 2. generated: crash injection first when the protocol is in doubt, otherwise round trips, runs, crashes
     order = ["crash", "roundtrip", "run"] if ("protocol" in kinds or "crash" in kinds or not kinds) else ["roundtrip", "run", "crash"]
+    order = (["meta"] + order) if "meta" in kinds else (order[:2] + ["meta"] + order[2:])
     sm_first = any(k_ and k_.startswith("sm-") for k_ in kinds)
     order = (["sm-crash", "sm-roundtrip"] + order) if sm_first else (order + ["sm-crash", "sm-roundtrip"])
     for what in order:
@@ -1495,6 +2051,14 @@ def search(tier, hints):
                     cfg=cfg, name=name, seed=seed, old_checkpoint=with_old, stale_tmp=stale)
                 if found:
                     return found
+        elif what == "meta":
+            for cfg in [CONFIGS[0], CONFIGS[11], EXTRA_RUN_CONFIGS[2]]:
+                for variant in META_VARIANTS:
+                    k, seed = rng.choice([0, 1, 3]), rng.randrange(2 ** 31)
+                    if variant == "resume":
+                        k = max(k, 1)
+                    if add("meta", oracle_meta(cfg, k, seed, variant), cfg=cfg, k=k, seed=seed, variant=variant):
+                        return found
         elif what == "sm-roundtrip":
             for cfg in SM_CFGS:
                 for k in (0, 1, 3):
@@ -1502,15 +2066,25 @@ def search(tier, hints):
                     if add("sm-roundtrip", oracle_sm_roundtrip(cfg, k, seed, name, rs), cfg=cfg, k=k, seed=seed, name=name, rng_seed=rs):
                         return found
         elif what == "crash":
-            for cfg, with_old in [(CONFIGS[0], True), (CONFIGS[5], False)] + ([(CONFIGS[10], True), (CONFIGS[15], True)] if tier != "quick" else []):
+            for n_c, (cfg, with_old) in enumerate([(CONFIGS[0], True), (CONFIGS[5], False)] + ([(CONFIGS[10], True), (CONFIGS[15], True)] if tier != "quick" else [])):
                 seed = rng.randrange(2 ** 31)
-                add("crash", oracle_crash(cfg, seed, with_old, tier, rng, max_points=(40 if tier == "quick" else None)),
+                add("crash", oracle_crash(cfg, seed, with_old, tier, rng, max_points=(40 if tier == "quick" else None), stale_tmp=(n_c % 2 == 1)),
                     cfg=cfg, seed=seed, old_checkpoint=with_old)
                 if found:
                     return found
+                add("resave", oracle_resave(cfg, seed, with_old, n_c % 2 == 0), cfg=cfg, seed=seed, old_checkpoint=with_old, stale_tmp=(n_c % 2 == 0))
+                if found:
+                    return found
+            # a final name that itself ends in ".temp" / has another suffix (a temporary name derived by REPLACING the suffix collides)
+            for name in ("x.temp", "ck.v2"):
+                seed = rng.randrange(2 ** 31)
+                add("crash", oracle_crash(CONFIGS[0], seed, True, tier, rng, max_points=12, name=name), cfg=CONFIGS[0], seed=seed,
+                    old_checkpoint=True)
+                if found:
+                    return found
         elif what == "roundtrip":
-            for cfg in CONFIGS:
-                for k in (0, 1, 3):
+            for cfg in POOL_KIND_CONFIGS[:2] + CONFIGS:
+                for k in ((1, 2) if cfg["pool"] in ("int", "mp") else (0, 1, 3)):
                     seed = rng.randrange(2 ** 31)
                     if add("roundtrip", oracle_roundtrip(cfg, k, seed), cfg=cfg, k=k, seed=seed):
                         return found
@@ -1562,14 +2136,14 @@ def sm_temp_suffix_finding():
     return {"fails": False, "detail": f"StateManager.save_state('x.temp') over a complete file (temporary file {tmp_name!r}): {seen}"}
 
 
-def oracle_crash_point(cfg, seed, with_old, point, eager):
+def oracle_crash_point(cfg, seed, with_old, point, eager, stale_tmp=False, name="a.state"):
     """one crash point (replay)"""
     root = tempfile.mkdtemp(prefix="tv08_")
     try:
         with _quiet(), warnings.catch_warnings():
             warnings.simplefilter("ignore")
             s = _prepared(cfg, 2, seed, root)
-            final = os.path.join(root, "a.state")
+            final = os.path.join(root, name)
             old_bytes = old_dump = None
             if with_old:
                 s.save_state(final)
@@ -1577,6 +2151,9 @@ def oracle_crash_point(cfg, seed, with_old, point, eager):
                 old_dump = dump_state(s.state)
                 s.sample()
             new_dump = dump_state(s.state)
+        if stale_tmp:
+            with open(final + ".temp", "wb") as fh:
+                fh.write(STALE)
         code = crash_one(s, final, tuple(point), eager)
         outcome, detail = classify_outcome(cfg, final, old_bytes, old_dump, new_dump)
         # exit code 0 = the crash point does not occur in this save (it completed): then the new checkpoint must be there
@@ -1585,7 +2162,8 @@ def oracle_crash_point(cfg, seed, with_old, point, eager):
         if ok:
             return None
         return dict(what=f"process killed at crash point {list(point)} during save_state ({'with' if with_old else 'without'} an existing "
-                         f"complete checkpoint), child exit code {code}: {outcome}: {detail or ''}", point=list(point), eager=eager)
+                         f"complete checkpoint{', stale <final>.temp present' if stale_tmp else ''}), child exit code {code}: {outcome}: {detail or ''}",
+                    point=list(point), eager=eager, stale_tmp=stale_tmp)
     finally:
         shutil.rmtree(root, ignore_errors=True)
 
@@ -1601,7 +2179,12 @@ def replay(obj):
     elif kind == "run":
         msg = oracle_run(f["cfg"], f["save_every"], f["resume_save_every"], f["seed"], f["n_total"], n_total_resume=f.get("n_total_resume"))
     elif kind == "crash":
-        msg = oracle_crash_point(f["cfg"], f["seed"], f["old_checkpoint"], tuple(f["point"]), f["eager"])
+        msg = oracle_crash_point(f["cfg"], f["seed"], f["old_checkpoint"], tuple(f["point"]), f["eager"], f.get("stale_tmp", False),
+                                 f.get("name", "a.state"))
+    elif kind == "meta":
+        msg = oracle_meta(f["cfg"], f["k"], f["seed"], f["variant"])
+    elif kind == "resave":
+        msg = oracle_resave(f["cfg"], f["seed"], f["old_checkpoint"], f.get("stale_tmp", False))
     elif kind == "sm-roundtrip":
         msg = oracle_sm_roundtrip(f["cfg"], f["k"], f["seed"], f["name"], f.get("rng_seed", 0))
     elif kind == "sm-crash":
